@@ -35,6 +35,8 @@ fn main() {
     let mut only_case = None;
     let mut mode = String::new();
     let mut scale = 1.0f64;
+    let mut hb: Option<String> = None;
+    let mut mem_mb = 6144u64;
     let mut pos: Vec<String> = Vec::new();
     let mut i = 2;
     while i < args.len() {
@@ -59,6 +61,8 @@ fn main() {
             "--only-case" => only_case = Some(val().parse().unwrap_or_else(|_| usage())),
             "--mode" => mode = val(),
             "--scale" => scale = val().parse().unwrap_or_else(|_| usage()),
+            "--hb" => hb = Some(val()),
+            "--mem-mb" => mem_mb = val().parse().unwrap_or_else(|_| usage()),
             _ => pos.push(a.clone()),
         }
         i += 1;
@@ -73,7 +77,11 @@ fn main() {
             let ctx = Ctx { prop: prop.clone(), tier, seed, shard, nshards: nshards.max(1), only_case, mode, scale };
             let mut rep = Report::new(&prop);
             if !cfg!(miri) {
-                ctx::start_watchdog(if cfg!(debug_assertions) { 240.0 } else { 120.0 });
+                ctx::limit_memory(mem_mb);
+                if let Some(h) = &hb {
+                    ctx::open_heartbeat(h);
+                }
+                ctx::start_watchdog(if cfg!(debug_assertions) { 240.0 } else { 120.0 }, 400.0);
             }
             let known = mon::dispatch(&ctx, &mut rep);
             if !known {
